@@ -41,12 +41,20 @@ class FaultingIterable(object):
             raise SimFault("iterable fault at end")
 
 
+import operator as _operator
+
 ALLOWED = {
     "value": ("ProphyError",),
     "index": ("ProphyError", "IndexError", "ValueError"),
     "missing": ("ProphyError", "ValueError", "IndexError"),
     "slice": ("ProphyError", "ValueError"),
     "attr": ("AttributeError",),
+    # a container argument of the wrong kind (not iterable, not an index, not an element of this array): the pinned
+    # tests demand TypeError for some of these; "ok" = may also be a silent no-op; the state must not change either way
+    "confused": ("ProphyError", "TypeError"),
+    "confused-or-noop": ("ProphyError", "TypeError", "ok"),
+    # item assignment to an array of composites: the pinned suite only says "raises"; the runtime has no __setitem__
+    "confused-item": ("ProphyError", "TypeError", "AttributeError"),
     "fault": ("SimFault", "ProphyError"),
 }
 
@@ -494,7 +502,7 @@ class HistRun(object):
         else:
             self.count("rejected")
             self.count("rejected:" + verdict)
-            if outcome is None:
+            if outcome is None and "ok" not in ALLOWED[verdict]:
                 self.fail("C10", "accepted-invalid", "C10/%s/accepted-invalid:%s" % (key, verdict),
                           "%s must be rejected (%s) but was accepted" % (desc, verdict), diverged=True)
             if oname not in ALLOWED[verdict]:
@@ -696,6 +704,49 @@ class HistRun(object):
         return ("%s.append(%r)" % (tg.desc, v), lambda: arr.append(v),
                 lambda: mm.arr_append(m, ref[m.name], v), "append-invalid/" + m.kind + _vkey(v))
 
+    def op_arr_confused(self, tg, a):
+        m = tg.m
+        arr = getattr(tg.pobj, m.name)
+        v = gv.scalar_valid(m.type, a[0])
+        k = a[1] % 7
+        kind = "confused"
+        if k == 0:
+            desc, do = "%s.extend(5)" % tg.desc, lambda: arr.extend(5)
+        elif k == 1:
+            desc, do = "%s[:] = 5" % tg.desc, lambda: _operator.setitem(arr, slice(None), 5)
+        elif k == 2:
+            desc, do = "%s.insert('a', %r)" % (tg.desc, v), lambda: arr.insert("a", v)
+        elif k == 3:
+            desc, do = "%s['a'] = %r" % (tg.desc, v), lambda: _operator.setitem(arr, "a", v)
+        elif k == 4:
+            desc, do, kind = "%s.extend(None)" % tg.desc, lambda: arr.extend(None), "confused-or-noop"
+        elif k == 5:
+            desc, do, kind = "%s.extend(0)" % tg.desc, lambda: arr.extend(0), "confused-or-noop"
+        else:
+            desc, do = "%s.extend(object())" % tg.desc, lambda: arr.extend(object())
+
+        def rf():
+            raise Reject(kind)
+        return (desc, do, rf, "confused/" + m.kind)
+
+    def op_carr_confused(self, tg, a):
+        m = tg.m
+        arr = getattr(tg.pobj, m.name)
+        k = a[1] % 4
+        if k == 0:
+            desc, do = "%s.extend(1)" % tg.desc, lambda: arr.extend(1)
+        elif k == 1:
+            desc, do = "%s.extend([1])" % tg.desc, lambda: arr.extend([1])
+        elif k == 2:
+            desc, do = "%s.extend(['x', None])" % tg.desc, lambda: arr.extend(["x", None])
+        kind = "confused"
+        if k == 3:
+            desc, do, kind = "%s[:] = 1" % tg.desc, lambda: _operator.setitem(arr, slice(None), 1), "confused-item"
+
+        def rf():
+            raise Reject(kind)
+        return (desc, do, rf, "confused/" + m.kind)
+
     def op_arr_insert(self, tg, a):
         m, ref = tg.m, tg.pref
         arr = getattr(tg.pobj, m.name)
@@ -762,7 +813,7 @@ class HistRun(object):
         hi = [None, a[2] % (n + 2), -(a[2] % (n + 2)), n + 5][a[2] % 4]
         step = None
         if allow_step and a[3] % 4 == 0:
-            step = [2, -1, 3, -2][(a[3] // 4) % 4]
+            step = [2, -1, 3, -2, 1, 1][(a[3] // 4) % 6]
         return slice(lo, hi, step)
 
     def op_arr_setslice(self, tg, a):
@@ -1163,10 +1214,10 @@ def ops_for_member(m):
     if m.arr:
         if comp:
             return ["carr_add", "carr_add", "carr_add", "carr_extend", "carr_extend", "carr_delitem", "carr_delslice",
-                    "assign_reject", "arr_read"]
+                    "assign_reject", "arr_read", "carr_confused"]
         return ["arr_append", "arr_append", "arr_append_invalid", "arr_insert", "arr_extend", "arr_extend",
                 "arr_extend_gen", "arr_setitem", "arr_setslice", "arr_setslice", "arr_delitem", "arr_delslice",
-                "arr_remove", "assign_reject", "arr_read", "arr_append"]
+                "arr_remove", "assign_reject", "arr_read", "arr_append", "arr_confused"]
     if m.opt:
         if comp:
             return ["opt_enable", "opt_enable", "set_none", "opt_invalid", "read"]
